@@ -141,7 +141,7 @@ def limit_queries(Query, tier):
         d = {'VF_KIND': kind, 'VF_S': s}
         nm = '%s_B_LA_%s' % ('sv4' if kind else 'vec', s.replace('uint', 'u').replace('int', 'i').replace('_t', ''))
         for op in LIMIT_OPS:
-            qs.append(Query('%s.%s' % (op, nm), 'vec_limits.cpp', 'h_' + op, defs=d, arena=(2, 256), unwind=3, timeout=600, mem_gb=4,
+            qs.append(Query('%s.%s' % (op, nm), 'vec_limits.cpp', 'h_' + op, defs=d, arena=(2, 256), unwind=3, timeout=600, mem_gb=4, unwind_cap=12,
                             symbolic='size and capacity within 5 of the size_type maximum, arbitrary contents, position, count, value',
                             bounds=dict(size_type=s, size='max-5..max', note='copy loops behind the capacity check are proved unreachable by their unwinding assertions (unwind 3)')))
     return qs
@@ -236,7 +236,8 @@ def flatset_plan(Query, pid, tier):
         q += fs_queries(Query, ['insert_hint'], hint[:2] if quick else hint, timeout=600)
         q += fs_queries(Query, ['insert_range'], [fs_cfg(0, cmp=2, d=1, sh=1, stub=True, mx=2, cls=1), fs_cfg(1, cmp=0, stub=True, mx=2, cls=0)] +
                         ([] if quick else [fs_cfg(0, cmp=2, d=0, sh=1, stub=True, mx=2, cls=1, il=True), fs_cfg(2, n=8, cmp=1, stub=True, mx=3)]), timeout=900, mem_gb=8)
-        q += fs_queries(Query, ['merge_same', 'merge_other'], [fs_cfg(0, cmp=2, d=1, sh=1, mx=1, cls=1), fs_cfg(1, cmp=0, mx=1, cls=0)], timeout=900, mem_gb=10)
+        q += fs_queries(Query, ['merge_same'], [fs_cfg(0, cmp=2, d=1, sh=1, mx=1, cls=1), fs_cfg(1, cmp=0, mx=1, cls=0)], timeout=900, mem_gb=10)
+        if not quick: q += fs_queries(Query, ['merge_other'], [fs_cfg(1, cmp=0, mx=1, cls=0)], timeout=1800, mem_gb=10)     # 730 s; the amc::vector-backed variant needed > 50 GB
         q += fs_queries(Query, ['ctor_range', 'from_vector'], [fs_cfg(1, cmp=0, stub=True, mx=2, rng=1, cls=0)] + ([] if quick else [fs_cfg(0, cmp=2, d=1, sh=1, stub=True, mx=1, rng=1, cls=1)]), timeout=900, mem_gb=10)
         return q
     if pid == 'C19':
